@@ -848,9 +848,9 @@ class SequenceTokenOOVRate(Metric):
     del prediction
     target = example[self.target_key]
     target_weight = get_target_weight(target, self.masked_target_values)
-    target_oov = jnp.ones_like(target, dtype=jnp.float32)
+    target_oov = jnp.zeros_like(target, dtype=jnp.float32)
     for oov_value in self.oov_target_values:
-      target_oov *= (target == oov_value)
+      target_oov = jnp.maximum(target_oov, target == oov_value)
     if self.per_position:
       return MeanStat.new(target_oov * target_weight, target_weight)
     return MeanStat.new(
